@@ -401,11 +401,10 @@ Twin_Equiv == \A c \in 1..MaxCommit : Made(c) =>
 Twin_UpToCumulative ==
   \A c \in 1..MaxCommit : Made(c) =>
     /\ notes[c].has = tnotes[c].has /\ notes[c].wf = tnotes[c].wf
-    \* prompt records may differ only by the sessions the extra (cumulative) entries name
-    /\ LET extra == { s \in Session : \E f \in File : \E n \in 1..Max({Len(notes[c].files[f]), Len(tnotes[c].files[f]), 0}) :
-                                          At(notes[c].files[f], n) # At(tnotes[c].files[f], n)
-                                          /\ s \in {At(notes[c].files[f], n), At(tnotes[c].files[f], n)} }
-       IN (notes[c].prompts \ tnotes[c].prompts) \cup (tnotes[c].prompts \ notes[c].prompts) \subseteq extra
+    \* prompt records may differ only by sessions that own lines somewhere in the rewritten history (the replay
+    \* carries every prompt record along, also into commits that add none of its lines)
+    /\ (notes[c].prompts \ tnotes[c].prompts) \cup (tnotes[c].prompts \ notes[c].prompts)
+         \subseteq UNION { SessionsIn(notes[d].files) \cup SessionsIn(tnotes[d].files) : d \in 1..nc }
     /\ \A f \in File : \A n \in 1..Max({Len(notes[c].files[f]), Len(tnotes[c].files[f]), 0}) :
          LET a == At(notes[c].files[f], n)
              b == At(tnotes[c].files[f], n)
